@@ -14,13 +14,14 @@
    t<k>, b<k>).  Everything else of the language (expressions, loops, conditionals,
    includes, components) is outside this model.
 
-   Ported from (pinned tree f1cc69d + fixes/D8):
+   Ported from (/repo with the D8 and D13 repairs applied):
      tera/src/parsing/parser.rs   1513-1548  (duplicate block names are a syntax error)
      tera/src/parsing/compiler.rs 421-441    compile_block (blocks / block_name_spans / RenderBlock)
                                   613-630    filter section: Capture .. EndCapture ApplyFilter WriteTop
                                   487-520    block set:      Capture .. EndCapture Set
      tera/src/template.rs         184-210    find_parents
-     tera/src/tera.rs             579-726    finalize_templates (loops 1, 2, inherit pass, errors)
+     tera/src/tera.rs             579-745    finalize_templates (loops 1, 2, inherit pass, block-cycle check, errors)
+     tera/src/template.rs         186-245    find_block_cycle
      tera/src/tera.rs             1310-1326  Tera::render_block (block must be in block_lineage)
      tera/src/vm/interpreter.rs   325-331    WriteText (top capture buffer, else output)
                                   476-512    CallFunction "super"
@@ -51,6 +52,7 @@ Inductive lerr :=
 | EMissingParent   (* find_parents: extends target not registered *)
 | ECircular        (* find_parents: circular extends *)
 | EOrphanBlock     (* finalize: top-level block of a child not defined in any parent *)
+| EBlockCycle      (* finalize: a block ends up rendering itself (find_block_cycle, D13 fix) *)
 | ESuperOutside    (* render: super() called outside of a block *)
 | ESuperTop        (* render: super() with no further lineage entry *)
 | ENoLineage       (* render: RenderBlock without lineage ("not properly finalized") *)
@@ -295,18 +297,125 @@ Fixpoint inherit_pass (ord : orders) (todo : list (name * list name))
       tb' <- inherit_one ord n (rev parents) tb ;; inherit_pass ord todo' tb'
   end.
 
+(* ---- template.rs:186-245 find_block_cycle (the D13 repair): a cycle in the graph whose nodes
+   are (block, level) of ONE template's block_lineage, with edges to (nested, 0) for every
+   RenderBlock of the chunk and to (block, level + 1) if the chunk calls super(). *)
+
+Definition bnode := (name * nat)%type.
+Definition bnode_eqb (a b : bnode) : bool := N.eqb (fst a) (fst b) && Nat.eqb (snd a) (snd b).
+
+(* Chunk::rendered_blocks *)
+Definition rendered_blocks (c : code) : list name :=
+  flat_map (fun i => match i with IRenderBlock b => [b] | _ => [] end) c.
+
+Definition next_nodes (lin : list (name * list code)) (current : bnode) : rres (list bnode) :=
+  match alookup (fst current) lin with
+  | None => Err EPanic                       (* lineage[current.0] *)
+  | Some chunks =>
+      match nth_error chunks (snd current) with
+      | None => Err EPanic                   (* chunks[current.1] *)
+      | Some chunk =>
+          Ok (map (fun b => (b, 0))
+                  (filter (fun b => match alookup b lin with Some (_ :: _) => true | _ => false end)
+                          (rendered_blocks chunk))
+              ++ (if calls_super chunk && (S (snd current) <? length chunks)
+                  then [(fst current, S (snd current))] else []))
+      end
+  end.
+
+(* the recursive `walk`; returns (found, visited).  [stack] is only tested for membership.
+   fuel bounds the recursion depth: the nodes on the stack are distinct, so the number of
+   (block, level) nodes + 1 always suffices. *)
+Fixpoint bc_walk (fuel : nat) (lin : list (name * list code)) (current : bnode)
+         (stack visited : list bnode) {struct fuel} : rres (option name * list bnode) :=
+  match fuel with
+  | 0 => Err EOutOfFuel
+  | S f =>
+      match next_nodes lin current with
+      | Err e => Err e
+      | Ok next =>
+          (fix loop (next : list bnode) (visited : list bnode) {struct next}
+             : rres (option name * list bnode) :=
+             match next with
+             | [] => Ok (None, visited)
+             | node :: rest =>
+                 if existsb (bnode_eqb node) stack then Ok (Some (fst node), visited)
+                 else if existsb (bnode_eqb node) visited then loop rest visited
+                 else
+                   match bc_walk f lin node (node :: stack) visited with
+                   | Err e => Err e
+                   | Ok (Some found, v) => Ok (Some found, v)
+                   | Ok (None, v) => loop rest (node :: v)
+                   end
+             end) next visited
+      end
+  end.
+
+(* names.sort() *)
+Fixpoint insert_name (x : name) (l : list name) : list name :=
+  match l with
+  | [] => [x]
+  | y :: l' => if N.leb x y then x :: l else y :: insert_name x l'
+  end.
+Fixpoint sort_names (l : list name) : list name :=
+  match l with [] => [] | x :: l' => insert_name x (sort_names l') end.
+
+Definition lin_len (lin : list (name * list code)) (k : name) : nat :=
+  match alookup k lin with Some l => length l | None => 0 end.
+
+Fixpoint first_cycle (fuel : nat) (lin : list (name * list code)) (starts : list bnode)
+  : rres (option name) :=
+  match starts with
+  | [] => Ok None
+  | s :: rest =>
+      match bc_walk fuel lin s [s] [] with    (* fresh stack and visited set per start *)
+      | Err e => Err e
+      | Ok (Some found, _) => Ok (Some found)
+      | Ok (None, _) => first_cycle fuel lin rest
+      end
+  end.
+
+Definition find_block_cycle (lin : list (name * list code)) : rres (option name) :=
+  let keys := sort_names (map fst lin) in
+  let fuel := S (S (list_sum (map (lin_len lin) keys))) in
+  first_cycle fuel lin (flat_map (fun k => map (fun lv => (k, lv)) (seq 0 (lin_len lin k))) keys).
+
+(* tera.rs:716-728.  The real loop walks tpl_blocks in HashMap order and the errors are sorted
+   by template name afterwards (tera.rs:732); the model walks [reg], which is listed in that
+   order.  Result: the templates for which a cycle was found. *)
+Fixpoint cycle_pass (reg : list ctemplate) (tb : list (name * list (name * list code)))
+  : rres (list name) :=
+  match reg with
+  | [] => Ok []
+  | t :: reg' =>
+      match alookup (c_name t) tb with
+      | None => Err EPanic
+      | Some blocks =>
+          c <- find_block_cycle blocks ;;
+          r <- cycle_pass reg' tb ;;
+          Ok (match c with Some _ => c_name t :: r | None => r end)
+      end
+  end.
+
 Record freg := {
   f_tpls : list ctemplate;
   f_parents : list (name * list name);                    (* Template.parents *)
   f_lineage : list (name * list (name * list code)) }.    (* Template.block_lineage *)
 
+(* both kinds of error are collected into one Error::message (class "msg"); the model names
+   the orphan error when both are present *)
 Definition finalize (ord : orders) (reg : list ctemplate) : rres freg :=
   tpl_parents <- loop1 reg reg ;;
   r <- loop2 ord reg tpl_parents (o_loop2 ord reg) ;;
   tb <- inherit_pass ord (o_inherit ord tpl_parents) (snd r) ;;
   match fst r with
-  | [] => Ok {| f_tpls := reg; f_parents := tpl_parents; f_lineage := tb |}
   | _ :: _ => Err EOrphanBlock
+  | [] =>
+      cyc <- cycle_pass reg tb ;;
+      match cyc with
+      | [] => Ok {| f_tpls := reg; f_parents := tpl_parents; f_lineage := tb |}
+      | _ :: _ => Err EBlockCycle
+      end
   end.
 
 (* add_raw_templates of a whole set into an empty instance *)
